@@ -145,19 +145,23 @@ def f16_option_default_domain_validate():
         return f"validate passes but evaluate fails for the missing domain option: {v} {e}"
 
 
-SCENARIOS = {k: v for k, v in list(globals().items()) if k.startswith("f") and callable(v) and k[1].isdigit()}
 
 
 def replay(case):
+    SCENARIOS = scenarios()
     fn = SCENARIOS[case["scenario"]]
     msg = fn()
     return msg is not None, msg or "holds"
 
 
-if __name__ == "__main__":
+def scenarios():
+    return {k: v for k, v in list(globals().items()) if k.startswith("f") and callable(v) and k[1].isdigit()}
+
+
+def _main():
     import sys
     bad = 0
-    for k, fn in SCENARIOS.items():
+    for k, fn in scenarios().items():
         try:
             m = fn()
         except Exception as e:  # noqa
@@ -165,3 +169,27 @@ if __name__ == "__main__":
         print(k, "->", m or "holds")
         bad += m is not None
     sys.exit(1 if bad else 0)
+
+
+def f24_scalar_shadows_default_section():
+    w = WithDefaultOptions(Option("S.X", 7), {"S": {"X": 1}})
+    o = {"S": 5}
+    ks = w.keys(o)
+    restricted = {}
+    a, b = outcome(lambda: w(o)), outcome(lambda: w(restricted))
+    if ks == set() and a != b:
+        return f"keys({o}) = {ks} but evaluating on the restriction gives {b} instead of {a}: a scalar in the caller's options shadows a default section"
+
+
+def f24b_preset_scalar_hides_caller_section():
+    w = WithOptions(Option("S.X"), {"S": 5})
+    o = {"S": {"X": 1}}
+    ex = w.explain(o)
+    v = outcome(lambda: w.validate(o))
+    absent = {k for k in ex if k == "S.X" and "X" not in o.get("S", {})}
+    if not absent and v[0] == "err":
+        return f"explain({o}) = {ex}, none absent, yet validate fails: {v}"
+
+
+if __name__ == "__main__":
+    _main()
